@@ -34,7 +34,7 @@ def cases(ctx):
     for i in range(200 * K):
         yield {'kind': 'pda', 'X': gen.random_pda(rng), 'n': 3, 'scheds': [[rng.randint(0, 5) for _ in range(6)]]}
     for i in range(250 * K):
-        G = gen.random_cfg(rng, cnf=True, nvars=rng.randint(1, 4))
+        G = gen.random_cfg(rng, cnf=True, nvars=rng.randint(1, 4), multichar=rng.random() < 0.3)
         yield {'kind': 'cfg', 'X': G, 'n': 4}
 
 
